@@ -43,6 +43,7 @@
 From GT Require Import Base.Prelude Base.Sort Model.DFA Model.NFA Model.DFAOps Model.Minimize Model.Lang Model.Regexp
   Model.CFG Model.Chomsky Model.CYK Model.Simulate Model.Checkers.
 From GT Require Import Proofs.PartitionDefs Proofs.MinimizeFinal Proofs.CheckersProofs.
+From GT Require Model.Checkers2 Proofs.Checkers2Proofs.
 From Coq Require Import Permutation.
 
 (* ---------------- compare_languages ---------------- *)
@@ -201,6 +202,61 @@ Theorem C12_chomsky : forall (ordV : list nat -> list nat) (stream : list nat) (
    forall w, length w <= n -> (cfg_lang G1 w <-> cfg_lang G w)).
 Proof. exact check_chomsky_sound. Qed.
 
+(* ---------------- language from a reference file; given-language checker (automata_checker) ---------------- *)
+(* bounded_lang n P L: L is exactly the set of words of length <= n satisfying P; established for the enumerators of
+   DFAs, NFAs and regular expressions (the objects generate_language is applied to) *)
+Theorem C12_bounded_languages :
+  (forall (A : Type) (HA : Eqb A) (D : dfa A) (n : nat) (L : list word), dfa_wf D -> dfa_words D n = Some L ->
+     Checkers2Proofs.bounded_lang n (fun w => Forall (fun a => In a (dS D)) w /\ dfa_lang D w) L) /\
+  (forall (A : Type) (HA : Eqb A) (N : nfa A) (n : nat) (L : list word), nfa_wf N -> nfa_words N n = Some L ->
+     Checkers2Proofs.bounded_lang n (fun w => Forall (fun a => In a (nS N)) w /\ nfa_lang N w) L) /\
+  (forall (r : re) (n : nat), Checkers2Proofs.bounded_lang n (re_lang r) (re_words r n)).
+Proof.
+  split; [|split].
+  - exact (fun A HA D n L => @Checkers2Proofs.dfa_bounded A HA D n L).
+  - exact (fun A HA N n L => @Checkers2Proofs.nfa_bounded A HA N n L).
+  - exact Checkers2Proofs.re_bounded.
+Qed.
+
+(* check_X_language_from_file prints OK exactly when answer and reference agree on every word of length <= n *)
+Theorem C12_from_file : forall (n : nat) (P1 P2 : word -> Prop) (L1 L2 : list word),
+  Checkers2Proofs.bounded_lang n P1 L1 -> Checkers2Proofs.bounded_lang n P2 L2 ->
+  (Checkers2.check_language_from_file L1 L2 = true <-> forall w, length w <= n -> (P1 w <-> P2 w)).
+Proof.
+  intros n P1 P2 L1 L2 H1 H2. split.
+  - exact (Checkers2Proofs.from_file_sound n P1 P2 L1 L2 H1 H2).
+  - exact (Checkers2Proofs.from_file_complete n P1 P2 L1 L2 H1 H2).
+Qed.
+
+(* the counterexample reported by the language comparison is genuine, has the right polarity and minimal length *)
+Theorem C12_from_file_feedback : forall (n : nat) (P1 P2 : word -> Prop) (L1 L2 : list word) (w : word),
+  Checkers2Proofs.bounded_lang n P1 L1 -> Checkers2Proofs.bounded_lang n P2 L2 ->
+  (compare_languages L1 L2 = Some (true, w) ->
+     length w <= n /\ P1 w /\ ~ P2 w /\ forall v, length v <= n -> P1 v -> ~ P2 v -> length w <= length v) /\
+  (compare_languages L1 L2 = Some (false, w) ->
+     length w <= n /\ P2 w /\ ~ P1 w /\ forall v, length v <= n -> P2 v -> ~ P1 v -> length w <= length v).
+Proof.
+  intros n P1 P2 L1 L2 w H1 H2. split.
+  - exact (Checkers2Proofs.from_file_feedback_extra n P1 P2 L1 L2 w H1 H2).
+  - exact (Checkers2Proofs.from_file_feedback_missing n P1 P2 L1 L2 w H1 H2).
+Qed.
+
+(* automata_checker.check_{dfa,nfa}_for_given_language: 'correct' exactly when the word list is the bounded language of the
+   answer; a reported word is genuine with the right polarity, whichever element next(iter(...)) returns *)
+Theorem C12_given_language : forall (pick : picker word) (n : nat) (P : word -> Prop) (L words : list word),
+  picker_ok pick -> Checkers2Proofs.bounded_lang n P L ->
+  (Checkers2.given_language_ok pick L words = true <-> forall w, In w words <-> length w <= n /\ P w) /\
+  (forall w, Checkers2.compare_words pick L words = Some (true, w) -> (length w <= n /\ P w) /\ ~ In w words) /\
+  (forall w, Checkers2.compare_words pick L words = Some (false, w) -> In w words /\ ~ (length w <= n /\ P w)).
+Proof.
+  intros pick n P L words Hp HL. split; [|split].
+  - split.
+    + exact (Checkers2Proofs.given_language_sound pick n P L words Hp HL).
+    + intro Hq. apply (Checkers2Proofs.given_language_ok_spec pick L words Hp). intro w. rewrite (HL w). symmetry. apply Hq.
+  - intros w Hc. destruct (Checkers2Proofs.compare_words_extra pick L words w Hp Hc) as [Hi Hn]. split; [apply HL; exact Hi|exact Hn].
+  - intros w Hc. destruct (Checkers2Proofs.compare_words_missing pick L words w Hp Hc) as [Hi Hn]. split; [exact Hi|]. intro Hq. apply Hn. apply HL. exact Hq.
+Qed.
+
 Print Assumptions C12_compare_none.
 Print Assumptions C12_compare_extra.
 Print Assumptions C12_compare_missing.
@@ -221,3 +277,7 @@ Print Assumptions C12_nfa_to_dfa.
 Print Assumptions C12_cyk_matrix.
 Print Assumptions C12_derivation.
 Print Assumptions C12_chomsky.
+Print Assumptions C12_bounded_languages.
+Print Assumptions C12_from_file.
+Print Assumptions C12_from_file_feedback.
+Print Assumptions C12_given_language.
